@@ -228,7 +228,7 @@ def st_case(draw):
     ragged = draw(st.integers(0, 5)) == 0
     table = []
     for _ in range(nrows):
-        w = draw(st.integers(1, 4)) if ragged else width
+        w = draw(st.integers(0 if policy == 'whitespace' else 1, 4)) if ragged else width    # whitespace: a blank line is a record without fields
         if policy == 'monocolumn' and draw(st.integers(0, 5)):
             w = 1
         table.append(draw(st.lists(field, min_size=w, max_size=w)))
